@@ -72,6 +72,7 @@ def obligations(ctx):
     # exported kernels: q120 products (x and y operands), complex-vector kernels (operands a, b), fft tables
     tq = core.tables_dir(ctx, (), ())
     obs += [o for o in c10.product_obs(ctx, tq, [2])]
+    obs += c10.conv_obs(ctx, tq)  # q120 conversions and lazy additions: sources bit-identical afterwards (bit-precise assertions of the same harness)
     obs += [o for o in c17.kernel_obs(ctx) if ("rows=2" in o.name or "/m=8" in o.name or "a=2/b=2" in o.name)]
     return obs
 
